@@ -50,3 +50,16 @@ Theorem issuer_never_panics : forall hpke_open cfg kid parse_pk sig_verify regis
   eval3 hpke_open cfg kid parse_pk sig_verify registered sign_and_seal data <> Panic.
 Proof. exact eval3_no_panic_l. Qed.
 Print Assumptions issuer_never_panics.
+
+(** the request key is bound as associated data on BOTH sides: the associated data the client model builds
+    (tokens/type3/client.go: key id, suite ids, token type, request key, SHA-256 of the serialized name key) is the
+    associated data the issuer model opens with, and the message the client signs is the message the issuer verifies *)
+From PatVerif Require Import Model.RateLimited Proofs.RateLimitedP.
+Theorem client_and_issuer_agree_on_aad : forall nk rk,
+  aad (issuer_cfg nk) (name_key_id nk) rk = client_aad nk rk.
+Proof. exact aad_agree. Qed.
+Print Assumptions client_and_issuer_agree_on_aad.
+Theorem client_and_issuer_agree_on_signed_message : forall r,
+  signed_message r = client_signed (q3_key r) (q3_nkid r) (q3_enc r).
+Proof. exact signed_agree. Qed.
+Print Assumptions client_and_issuer_agree_on_signed_message.
